@@ -459,6 +459,8 @@ pub struct RunResult {
 
 pub fn run_property<P: Property>(tier: Tier, seed: u64) -> RunResult {
     let t0 = Instant::now();
+    let _ = hang_limit();
+    let _ = slow_threshold();
     let nworkers = P::workers(tier).max(1);
     let known = load_known(P::ID);
     let shared = Arc::new(Shared {
@@ -564,12 +566,9 @@ fn slow_threshold() -> Option<f64> {
 }
 
 fn hang_limit() -> Duration {
-    Duration::from_secs(
-        std::env::var("VERIF_HANG_SECS")
-            .ok()
-            .and_then(|s| s.parse().ok())
-            .unwrap_or(120),
-    )
+    // read once, before any worker exists (C11 mutates the environment on its worker thread)
+    static T: std::sync::OnceLock<u64> = std::sync::OnceLock::new();
+    Duration::from_secs(*T.get_or_init(|| std::env::var("VERIF_HANG_SECS").ok().and_then(|s| s.parse().ok()).unwrap_or(120)))
 }
 
 pub fn load_case<P: Property>(path: &std::path::Path) -> Result<P::Case, String> {
